@@ -900,6 +900,58 @@ def return_under_finally(b):
     return False
 
 
+def return_under_terminator_finally(b):
+    """try: return e / finally: <block that never falls through> (raise, break ...): the pending return value stays
+    in the function result variable, which the error exit overwrites"""
+    for s in b:
+        if s[0] == "fin" and contains_return(s[1]) and s[2] and terminates(s[2][-1]):
+            return True
+        for part in s[1:]:
+            if isinstance(part, list) and part and isinstance(part[0], tuple) and return_under_terminator_finally(part):
+                return True
+    return False
+
+
+def loop_jump_at_level(b):
+    """a break/continue in block b that targets a loop outside b"""
+    for s in b:
+        if s[0] in ("break", "continue"):
+            return True
+        if s[0] in ("for", "while"):
+            continue
+        for part in s[1:]:
+            if isinstance(part, list) and part and isinstance(part[0], tuple) and loop_jump_at_level(part):
+                return True
+    return False
+
+
+def return_cancelled_by_finally_jump(b):
+    """loop: try: return e / finally: break|continue -- ReturnStatNode has already released the loop's temps
+    (iterable, iterator) when the finally clause resumes the loop"""
+    for s in b:
+        if s[0] == "fin" and contains_return(s[1]) and loop_jump_at_level(s[2]):
+            return True
+        for part in s[1:]:
+            if isinstance(part, list) and part and isinstance(part[0], tuple) and return_cancelled_by_finally_jump(part):
+                return True
+    return False
+
+
+# always run: the shapes around a return value pending across a finally clause / __exit__ call
+A0, A1, A2 = ("arg", 0), ("arg", 1), ("arg", 2)
+ADD01 = ("op", "+", [A0, A1])
+DIRECTED = [
+    ("d000", [("fin", [("ret", ADD01)], [("expr", ("op", ".x", [A2]))])]),            # finally clause may raise
+    ("d001", [("fin", [("ret", ADD01)], [("raise", ("call", A2, []))])]),             # finally clause always raises
+    ("d002", [("fin", [("ret", ADD01)], [("expr", ("call", A2, [A0]))])]),
+    ("d003", [("with", ("call", A2, []), None, [("ret", ADD01)])]),                    # __exit__ may raise
+    ("d004", [("for", 0, ("seq", "list", [A0, A1]), [("fin", [("ret", ADD01)], [("break",)])], None), ("ret", A2)]),
+    ("d005", [("fin", [("fin", [("ret", ADD01)], [("expr", ("op", ".x", [A2]))])], [("expr", ("op", ".y", [A2]))])]),
+    ("d006", [("assign", 0, ("op", "<", [A0, A1])),
+              ("expr", ("chain", "<", "<", A0, A1, ("op", ".x", [A2])))]),            # cascade with a fallible tail
+]
+
+
 def chain_with_fallible_tail(x):
     """a cascaded comparison a < b < c whose LAST operand needs evaluation code that can raise"""
     if isinstance(x, (tuple, list)):
@@ -934,6 +986,7 @@ def run(ctx):
         body, _ = g.block(2, set(), False, n=rng.randrange(2, 5))
         body = fix_dels(body, captured_locals(body))
         progs.append(("w%03d" % i, body, False))
+    progs += [(n, b, False) for n, b in DIRECTED]
     progs = prefilter(ctx, progs)
     chunks = [progs[i:i + 120] for i in range(0, len(progs), 120)]
     for ci, chunk in enumerate(chunks):
@@ -980,7 +1033,9 @@ def run_chunk(ctx, name, chunk, maxk, with_ledger=False):
         if c["mode"] == "py":
             ctx.note("CPython run crashed on %s: %s" % (c["f"], c["err"][-200:]))
             continue
-        ck = "cascaded_cmp_dangling_temp" if chain_with_fallible_tail(body) else classify(body) + "_crash"
+        ck = ("cascaded_cmp_dangling_temp" if chain_with_fallible_tail(body)
+              else "return_cancelled_by_finally_loop_jump" if return_cancelled_by_finally_jump(body)
+              else classify(body) + "_crash")
         ctx.fail(ck, {"source": func_source(c["f"], body), "mode": c["mode"]},
                  "process died rc=%s %s" % (c["rc"], c["err"][-300:]), "no crash")
     model_lines, model_keys = [], []
@@ -1002,7 +1057,7 @@ def run_chunk(ctx, name, chunk, maxk, with_ledger=False):
                 if row is None:
                     ctx.fail(klass, inp, "refnanny build made fewer calls than the plain build", "same call count")
                     continue
-                leak_class = "finally_raises_after_return" if return_under_finally(body) else klass
+                leak_class = "finally_terminator_discards_return_value" if return_under_terminator_finally(body) else klass
                 if row["live"] != 0:
                     ctx.fail(leak_class if row["live"] > 0 else klass, inp,
                              "%s build: %+d operand objects alive after the call" % (tag, row["live"]), "0")
